@@ -9,6 +9,7 @@ import (
 	"bytes"
 	"fmt"
 	"io"
+	"math/rand"
 	"net"
 	"net/http"
 	"os"
@@ -182,6 +183,10 @@ func (e *e2e) start(flags int, cache string, size int, cfg string, hasCfg bool) 
 		case "udp":
 			e.udpAddr = fmt.Sprintf("127.0.0.1:%d", sp)
 			a = append(a, "--statsd.listen-udp="+e.udpAddr, "--statsd.listen-tcp=")
+		case "udp6":
+			// the listener on the wildcard address, as with the default flags (dual stack); the sender comes in over IPv6
+			e.udpAddr = fmt.Sprintf("[::1]:%d", sp)
+			a = append(a, fmt.Sprintf("--statsd.listen-udp=:%d", sp), "--statsd.listen-tcp=")
 		default:
 			e.unixPath = filepath.Join(e.dir, "statsd.sock")
 			os.Remove(e.unixPath)
@@ -276,7 +281,7 @@ func (e *e2e) send(l string) error {
 		}
 		_, err := e.tcp.Write([]byte(l + "\n"))
 		return err
-	case "udp":
+	case "udp", "udp6":
 		c, err := net.Dial("udp", e.udpAddr)
 		if err != nil {
 			return err
@@ -315,14 +320,20 @@ func (e *e2e) gone() bool {
 }
 
 func (e *e2e) quiesce() {
-	deadline := time.Now().Add(8 * time.Second)
+	// long runs (tens of thousands of lines, thousands of series) get more time, and are scraped less often
+	deadline := time.Now().Add(8*time.Second + time.Duration(e.sent/2000)*time.Second)
 	prev, same := "", 0
 	var reached time.Time
+	pause := 15 * time.Millisecond
 	for time.Now().Before(deadline) {
 		if e.gone() {
 			return
 		}
+		t0 := time.Now()
 		mfs, code, body, err := e.scrape()
+		if d := 2 * time.Since(t0); d > pause {
+			pause = d
+		}
 		if err == nil && code == 200 {
 			if int(famValue(mfs, "statsd_exporter_lines_total")) >= e.sent {
 				if reached.IsZero() {
@@ -348,7 +359,7 @@ func (e *e2e) quiesce() {
 				return
 			}
 		}
-		time.Sleep(15 * time.Millisecond)
+		time.Sleep(pause)
 	}
 }
 
@@ -759,6 +770,90 @@ func tcpFramingCase(c string) string {
 		int(famValue(mfs, "statsd_exporter_tcp_connections_total")), int(famValue(mfs, "statsd_exporter_tcp_connection_errors_total")))
 }
 
+// "CT <connections> <lines per connection> <every k-th connection sends an over-long line (0 = none)> <seed>":
+// that many TCP connections at once, each writing its own lines in random segments with short pauses; an offender sends a
+// line of 5000 bytes after half of its lines (closing that connection only).  Output: the counters and, per connection,
+// how many of its lines arrived (a counter series of its own per connection).
+func tcpConcurrentCase(c string) string {
+	f := strings.Fields(c)
+	nconn, _ := strconv.Atoi(f[1])
+	nlines, _ := strconv.Atoi(f[2])
+	every, _ := strconv.Atoi(f[3])
+	seed, _ := strconv.Atoi(f[4])
+	e := &e2e{transport: "tcp", settle: 150 * time.Millisecond}
+	defer e.stop()
+	if err := e.start(15, "none", 0, "", false); err != nil {
+		return "START-FAILED " + strings.ReplaceAll(err.Error()+" "+e.stderr.String(), "\n", "/")
+	}
+	var wg sync.WaitGroup
+	fails := make([]string, nconn)
+	for i := 0; i < nconn; i++ {
+		wg.Add(1)
+		go func(i int) {
+			defer wg.Done()
+			rnd := rand.New(rand.NewSource(int64(seed*1000 + i)))
+			conn, err := net.DialTimeout("tcp", e.tcpAddr, 5*time.Second)
+			if err != nil {
+				fails[i] = "dial"
+				return
+			}
+			defer conn.Close()
+			var payload []byte
+			for k := 0; k < nlines; k++ {
+				if every > 0 && i%every == 0 && k == nlines/2 {
+					payload = append(payload, []byte(strings.Repeat("z", 5000)+"\n")...)
+				}
+				payload = append(payload, []byte(fmt.Sprintf("ct%d:1|c\n", i))...)
+			}
+			for len(payload) > 0 {
+				n := 1 + rnd.Intn(40)
+				if n > len(payload) {
+					n = len(payload)
+				}
+				if _, err := conn.Write(payload[:n]); err != nil {
+					return // the exporter closed an offender's connection: expected
+				}
+				payload = payload[n:]
+				if rnd.Intn(8) == 0 {
+					time.Sleep(time.Duration(rnd.Intn(3)) * time.Millisecond)
+				}
+			}
+		}(i)
+	}
+	wg.Wait()
+	for _, x := range fails {
+		if x != "" {
+			return "CT fail " + x
+		}
+	}
+	prev, same := "", 0
+	var mfs map[string]*dto.MetricFamily
+	for t := 0; t < 400 && same < 5; t++ {
+		time.Sleep(30 * time.Millisecond)
+		m, code, body, err := e.scrape()
+		if err != nil || code != 200 {
+			continue
+		}
+		mfs = m
+		v := stableView(body)
+		if v == prev {
+			same++
+		} else {
+			same = 0
+		}
+		prev = v
+	}
+	if mfs == nil {
+		return "CT fail scrape"
+	}
+	per := make([]string, nconn)
+	for i := 0; i < nconn; i++ {
+		per[i] = strconv.Itoa(int(famValue(mfs, fmt.Sprintf("ct%d", i))))
+	}
+	return fmt.Sprintf("CT lines=%d toolong=%d conns=%d errors=%d per=%s", int(famValue(mfs, "statsd_exporter_lines_total")), int(famValue(mfs, "statsd_exporter_tcp_too_long_lines_total")),
+		int(famValue(mfs, "statsd_exporter_tcp_connections_total")), int(famValue(mfs, "statsd_exporter_tcp_connection_errors_total")), strings.Join(per, ","))
+}
+
 func engineE2E(cases string) {
 	settle := 60 * time.Millisecond
 	if s := os.Getenv("VERIF_E2E_SETTLE_MS"); s != "" {
@@ -789,6 +884,8 @@ func engineE2E(cases string) {
 				res[i] = relayLatencyCase(c)
 			} else if strings.HasPrefix(c, "R ") {
 				res[i] = relayE2ECase(c)
+			} else if strings.HasPrefix(c, "CT ") {
+				res[i] = tcpConcurrentCase(c)
 			} else if strings.HasPrefix(c, "F ") {
 				res[i] = tcpFramingCase(c)
 			} else {
